@@ -80,7 +80,13 @@ def gen(rng, tier):
 
 
 def oracle(c, o):
-    return P.c05_solution(o)
+    fails = P.c05_solution(o)
+    if not fails and o.get("KEntries") and o.get("Pre") and not o.get("SysPanic"):
+        # the equations the residual is judged against must be those of the sliced structure: the system
+        # handed to the solver is re-assembled independently (only supported numbers become trivial equations)
+        from .. import oracles as O
+        fails = ["the system handed to the solver is not that of the sliced structure: " + f for f in O.c17_structure(o, o["Pre"][-1])[:2]]
+    return fails
 
 
 def stageE(c, o, rng):
